@@ -151,6 +151,18 @@ func histConfig(a vh.Args, i int) histCfg {
 		cfg.quiesce = d.Chance(1, 4)
 		cfg.restore = d.Bool()
 	}
+	// entry / snapshot compression and PreVote: the first two histories (R01) cover
+	// Snappy entries with the concurrent and with the on-disk kind (entries applied
+	// in batches), PreVote on and off; with CheckQuorum all four combinations occur
+	// in the first four
+	if i < 4 {
+		cfg.entrySnappy = i != 2
+		cfg.snapSnappy = i == 0 || i == 2
+		cfg.preVote = i == 0 || i == 3
+	} else {
+		d := subRand(seed, 3)
+		cfg.entrySnappy, cfg.snapSnappy, cfg.preVote = d.Bool(), d.Bool(), d.Bool()
+	}
 	if cfg.quiesce {
 		cfg.duration += 500 * time.Millisecond // the idle period
 	}
@@ -326,7 +338,8 @@ func dims(c histCfg) string {
 		on   bool
 		name string
 	}{{c.onDisk, "ondisk"}, {c.notifyCommit, "notifycommit"}, {c.sessions, "sessions"}, {c.lateJoin && c.nonVoting, "latejoin"},
-		{c.membership, "membership"}, {c.snapshotOps, "snapshotops"}, {c.queryLog, "querylog"}, {c.quiesce, "quiesce"}, {c.restore, "restore"}} {
+		{c.membership, "membership"}, {c.snapshotOps, "snapshotops"}, {c.queryLog, "querylog"}, {c.quiesce, "quiesce"}, {c.restore, "restore"},
+		{c.entrySnappy, "entrysnappy"}, {c.snapSnappy, "snapsnappy"}, {c.preVote, "prevote"}} {
 		if x.on {
 			d = append(d, x.name)
 		}
